@@ -124,6 +124,15 @@ def run(ck):
         rng = random.Random(f"C11:head:{ck.seed}:{i}")
         files, _top, _info = fg.head_shadow(rng, variant="import" if i % 3 == 0 else "message")
         specs.append(dict(files=files, origin=f"head-shadow#{i}", code=0))
+    # round 2: the same dotted text reused elsewhere in the file, cross-kind shadowing, a member
+    # named like a visible definition (used again after that scope closed), twin short names
+    for i in range(fs.scaled(ck.n(32, 480))):
+        rng = random.Random(f"C11:scen:{ck.seed}:{i}")
+        fam = sorted(fg.SCENARIOS)[i % len(fg.SCENARIOS)]
+        files, _top, info = fg.scenario(rng, fam)
+        code, node = info["expect"]
+        specs.append(dict(files=files, origin=f"scenario#{i}:{fam}/{info['variant']}", code=code, node=node,
+                          file=info["file"], rule=f"{fam}/{info['variant']}"))
     n_sh = fs.scaled(ck.n(45, 900))
     for i in range(n_sh):
         rng = random.Random(f"C11:sh:{ck.seed}:{i}")
